@@ -314,3 +314,14 @@ func (c *Ctx) obFollowH(what string, f *ssa.Function, trig func(ssa.Instruction)
 	}
 	return len(trigs)
 }
+
+var reCache = map[string]*regexp.Regexp{}
+
+func regexpCache(re string) *regexp.Regexp {
+	if r, ok := reCache[re]; ok {
+		return r
+	}
+	r := regexp.MustCompile(re)
+	reCache[re] = r
+	return r
+}
